@@ -137,6 +137,16 @@ def run(tier):
         scen.append(sc)
     for i in range(int(n * 0.04)):
         scen.append(lazycase_scen(rng, "sync" if i % 2 else "emit"))
+    # long predicates (30-40 comparisons, well over 100 tokens): a long WHERE is a WHERE
+    gl = Gen(rng, nulls=False, cases=False, nots=False, flat=True)
+    for i in range(20 if quick else 600):
+        gl.in_where = True
+        w = gl.flatchain(rng.choice([30, 36, 40]))
+        gl.in_where = False
+        meta = {"fam": "direct", "star": 0, "chan": 0, "sel": [{"al": "id", "e": exprgen.col("id")}], "where": w, "profile": "where_long"}
+        sc = {"meta": meta, "sql": "SELECT id FROM stream WHERE " + sql(w), "rows": [gl.row(j + 1) for j in range(6)]}
+        if i % 2: sc["mode"] = "sync"
+        scen.append(sc)
     seqfam.run_scenarios(res, scen, "TraceDirect", tag="expr", relayout_p=0.3, retype_p=0.3, rename_p=0.3)
     seqfam.run_pinned(res, "TraceDirect")
     nerr = sum(1 for w, _ in res.violations if w.startswith("engine_execerr"))
